@@ -19,7 +19,7 @@ def main():
             out = dict(name=v['name'], expect=v['expect'])
             if 'edits' in v:
                 out['edits'] = [dict(file=e[0], find=e[1], replace=e[2]) for e in v['edits']]
-            if 'file' in v:
+            if 'find' in v:
                 out.update(file=v['file'], find=v['find'], replace=v['replace'])
             if v.get('all'):
                 out['all'] = True
